@@ -29,10 +29,27 @@ class V:
     kind: str = "break"  # break | twin
     rule: Optional[str] = None  # expected rule prefix for break variants
     more: tuple = ()  # further (file, old, new) edits applied together
+    pos: Optional[tuple] = None  # (lineno, col, end_lineno, end_col) of `old` in the current source (computed variants)
+
+
+def _offset(src: str, line: int, col: int) -> int:
+    lines = src.split("\n")
+    return sum(len(l) + 1 for l in lines[: line - 1]) + len(lines[line - 1].encode("utf-8")[:col].decode("utf-8", "ignore"))
 
 
 def _apply(repo_root, v: V):
     overlay = {}
+    if v.pos is not None:
+        path = os.path.join(repo_root, v.file)
+        if not os.path.exists(path):
+            return None
+        with open(path, encoding="utf-8") as f:
+            src = f.read()
+        a, b = _offset(src, v.pos[0], v.pos[1]), _offset(src, v.pos[2], v.pos[3])
+        if src[a:b] != v.old:
+            return None
+        overlay[v.file] = src[:a] + v.new + src[b:]
+        return overlay
     for file, old, new in ((v.file, v.old, v.new),) + tuple(v.more):
         path = os.path.join(repo_root, file)
         src = overlay.get(file)
